@@ -259,6 +259,8 @@ class Ctx:
         """Run `binary args --seed S --cases N --shard i/n` over n processes.
         Handles crashes (sanitizer aborts): the crashing case is recorded as a
         violation keyed by the parsed report and the shard resumes after it."""
+        if self.tier == "thorough":
+            timeout = max(timeout, 4 * 3600)     # a loaded machine must not turn a long shard into "inconclusive"
         nshards = nshards or min(NPROC, max(1, cases))
         label = label or os.path.basename(binary)
         e = dict(os.environ)
@@ -297,7 +299,7 @@ class Ctx:
                         last = int(open(prog).read().strip() or -1)
                     except ValueError:
                         last = None
-                finished = '"t":"stats"' in so
+                finished = '"final":1' in so
                 results.append(dict(cmd=cmd, rc=rc, out=so, err=se, timeout=to, last=last, finished=finished))
                 if finished and rc == 0:
                     break
@@ -348,6 +350,7 @@ class Ctx:
                 self._absorb(res, label)
 
     def _absorb(self, res, label):
+        last_stats = None
         for line in res["out"].splitlines():
             if not line.startswith("{"):
                 continue
@@ -357,7 +360,7 @@ class Ctx:
                 continue
             t = o.get("t")
             if t == "stats":
-                self.merge_stats(o)
+                last_stats = o          # cumulative: only the last line of a process counts
             elif t == "sample":
                 if len(self.samples) < 12:
                     self.samples.append(o["s"])
@@ -383,6 +386,8 @@ class Ctx:
                     rcmd.append(c)
                 rcmd += ["--only", str(o.get("case", 0))]
                 self.violation(o["key"], o.get("detail", ""), {"argv": rcmd})
+        if last_stats is not None:
+            self.merge_stats(last_stats)
         if res["finished"] and res["rc"] == 0:
             return
         reports = parse_sanitizer(res["err"])
@@ -414,7 +419,7 @@ class Ctx:
                     self.notes.append("%s: case %s exceeded the per-case wall-clock budget once (loaded machine) and finished "
                                       "when re-run alone; its result comes from the solo run" % (label, res["last"]))
                 self._absorb(dict(cmd=solo["cmd"], rc=solo["rc"], out=solo["out"], err=solo["err"], timeout=False,
-                                  last=res["last"], finished='"t":"stats"' in solo["out"]), label)
+                                  last=res["last"], finished='"final":1' in solo["out"]), label)
                 if res.get("gave_up"):
                     self.inconclusive.append("%s: more than 40 cases of one shard exceeded the per-case wall-clock budget and "
                                              "finished alone: the machine is too loaded for this run to decide anything" % label)
